@@ -1,4 +1,5 @@
 import SieveModel.Model.Readback
+import SieveModel.Lemmas.ToListLemmas
 /-!
 # Lemmas about the loader and the read-back functions
 -/
@@ -74,6 +75,7 @@ theorem removeAll_of_absent_head (p : UInt8) (ps s : Bytes) (h : ∀ c ∈ s, c 
 
 /-- no double quote, backslash or comma -/
 def plain (v : Bytes) : Prop := ∀ c ∈ v, c ≠ 34 ∧ c ≠ 92 ∧ c ≠ 44
+instance : DecidablePred plain := fun v => by unfold plain; infer_instance
 
 theorem escape_plain (v : Bytes) (h : plain v) : Factory.escape v = v := by
   induction v with
@@ -142,5 +144,105 @@ theorem negated_header_condition_reads_back (h tag k : Bytes)
   | cons c cs =>
     have := ht c rfl
     simp [List.dropWhile, this]
+
+/-! ## the other condition shapes: lists of plain strings -/
+
+theorem quoteList_plain (items : List Bytes) (h : ∀ v ∈ items, plain v) : Factory.quoteList items = ToList.render items := by
+  unfold Factory.quoteList ToList.render
+  have : items.map Factory.quote = items.map (fun v => [34] ++ v ++ [34]) := by
+    apply List.map_congr_left
+    intro v hv
+    rw [quote_plain v (h v hv)]
+    simp
+  rw [this]
+
+theorem plain_head_last (v : Bytes) (h : plain v) : v.head? ≠ some 34 ∧ v.getLast? ≠ some 34 := by
+  constructor
+  · intro e
+    have : (34 : UInt8) ∈ v := by
+      cases v with
+      | nil => simp at e
+      | cons x xs => simp at e; simp [e]
+    exact (h 34 this).1 rfl
+  · intro e
+    have : (34 : UInt8) ∈ v := List.mem_of_getLast? e
+    exact (h 34 this).1 rfl
+
+/-- a non-empty list of plain strings, written by the factory, read back by `to_list` -/
+theorem listOrOne_quoteList (items : List Bytes) (hne : items ≠ []) (h : ∀ v ∈ items, plain v) :
+    listOrOne (Factory.quoteList items) = items := by
+  rw [quoteList_plain items h]
+  have hs : B.startsWith (ToList.render items) [91] = true := by
+    simp [ToList.render, B.startsWith]
+  unfold listOrOne
+  rw [hs]
+  simp only [if_true]
+  exact ToListLemmas.list_read_back_exact items hne (fun v hv c hc => (h v hv c hc).2.2) (fun v hv => plain_head_last v (h v hv))
+
+/-- **exists / notexists**: the names come back as given -/
+theorem exists_condition_reads_back (name : Bytes) (args extra : List Arg) (children : List Node) (comments : List Bytes)
+    (names : List Bytes) (hne : names ≠ []) (hp : ∀ v ∈ names, plain v)
+    (a1 : assocGet args "header-names" = some (.str "header-names" (Factory.quoteList names))) :
+    existsTuple (.mk name args extra children comments) = .ok (.s (sb "exists") :: names.map RVal.s) := by
+  simp only [existsTuple, arg, Node.args, a1, pvOf, bind, Except.bind, flat, pure, Except.pure, listOrOne_quoteList names hne hp]
+
+/-- **size**: comparator and limit come back as stored -/
+theorem size_condition_reads_back (name : Bytes) (args extra : List Arg) (children : List Node) (comments : List Bytes)
+    (cmp lim : Bytes)
+    (a1 : assocGet args "comparator" = some (.str "comparator" cmp))
+    (a2 : assocGet args "limit" = some (.str "limit" lim)) :
+    sizeTuple (.mk name args extra children comments) = .ok [.s (sb "size"), .s cmp, .s lim] := by
+  simp only [sizeTuple, arg, Node.args, a1, a2, pvOf, bind, Except.bind, pure, Except.pure]
+
+/-- **envelope**: both lists come back as lists -/
+theorem envelope_condition_reads_back (name : Bytes) (args extra : List Arg) (children : List Node) (comments : List Bytes)
+    (tag : Bytes) (hs ks : List Bytes) (hne1 : hs ≠ []) (hne2 : ks ≠ []) (hp1 : ∀ v ∈ hs, plain v) (hp2 : ∀ v ∈ ks, plain v)
+    (a1 : assocGet args "match-type" = some (.str "match-type" tag))
+    (a2 : assocGet args "header-list" = some (.str "header-list" (Factory.quoteList hs)))
+    (a3 : assocGet args "key-list" = some (.str "key-list" (Factory.quoteList ks))) :
+    envelopeTuple (.mk name args extra children comments) = .ok [.s (sb "envelope"), .s tag, .l hs, .l ks] := by
+  simp only [envelopeTuple, arg, Node.args, a1, a2, a3, pvOf, bind, Except.bind, flat, asStr, pure, Except.pure,
+    listOrOne_quoteList hs hne1 hp1, listOrOne_quoteList ks hne2 hp2]
+
+/-- **body**: transform, match tag and keys -/
+theorem body_condition_reads_back (name : Bytes) (args extra : List Arg) (children : List Node) (comments : List Bytes)
+    (bt tag : Bytes) (ks : List Bytes) (hne : ks ≠ []) (hp : ∀ v ∈ ks, plain v)
+    (a1 : assocGet args "body-transform" = some (.str "body-transform" bt))
+    (a2 : assocGet args "match-type" = some (.str "match-type" tag))
+    (a3 : assocGet args "key-list" = some (.str "key-list" (Factory.quoteList ks))) :
+    bodyTuple (.mk name args extra children comments) = .ok ([.s (sb "body"), .s bt, .s tag] ++ ks.map RVal.s) := by
+  simp only [bodyTuple, arg, Node.args, a1, a2, a3, pvOf, bind, Except.bind, flat, asStr, pure, Except.pure,
+    listOrOne_quoteList ks hne hp]
+
+/-- **currentdate** with a plain match type (`:is`, `:contains`, `:matches`): zone, tag, date part and keys -/
+theorem currentdate_condition_reads_back (name : Bytes) (args extra : List Arg) (children : List Node) (comments : List Bytes)
+    (zone tag dp : Bytes) (ks : List Bytes) (hne : ks ≠ []) (hp : ∀ v ∈ ks, plain v) (hz : plain zone) (hd : plain dp)
+    (hrel : (tag == sb ":count" || tag == sb ":value") = false)
+    (e1 : assocGet extra "zone" = some (.str "zone" (Factory.quote zone)))
+    (a2 : assocGet args "match-type" = some (.str "match-type" tag))
+    (a3 : assocGet args "date-part" = some (.str "date-part" (Factory.quote dp)))
+    (a4 : assocGet args "key-list" = some (.str "key-list" (Factory.quoteList ks))) :
+    currentdateTuple (.mk name args extra children comments) =
+      .ok ([.s (sb "currentdate"), .s (sb ":zone"), .s zone, .s tag, .s dp] ++ ks.map RVal.s) := by
+  simp only [currentdateTuple, arg, Readback.extra, Node.args, Node.extra, e1, a2, a3, a4, pvOf, bind, Except.bind, flat, asStr, pure,
+    Except.pure, hrel, Bool.false_eq_true, if_false, quote_plain zone hz, quote_plain dp hd, strip_quote_plain zone hz,
+    strip_quote_plain dp hd, listOrOne_quoteList ks hne hp, List.append_nil, List.cons_append, List.nil_append]
+
+/-- **currentdate** with a relational match type (`:value "ge"`, `:count "lt"`): the operator comes back too -/
+theorem currentdate_relational_condition_reads_back (name : Bytes) (args extra : List Arg) (children : List Node)
+    (comments : List Bytes) (zone tag op dp : Bytes) (ks : List Bytes) (hne : ks ≠ []) (hp : ∀ v ∈ ks, plain v)
+    (hz : plain zone) (hd : plain dp) (ho : plain op)
+    (hrel : (tag == sb ":count" || tag == sb ":value") = true)
+    (e1 : assocGet extra "zone" = some (.str "zone" (Factory.quote zone)))
+    (e2 : assocGet extra "match-type" = some (.str "match-type" (Factory.quote op)))
+    (a2 : assocGet args "match-type" = some (.str "match-type" tag))
+    (a3 : assocGet args "date-part" = some (.str "date-part" (Factory.quote dp)))
+    (a4 : assocGet args "key-list" = some (.str "key-list" (Factory.quoteList ks))) :
+    currentdateTuple (.mk name args extra children comments) =
+      .ok ([.s (sb "currentdate"), .s (sb ":zone"), .s zone, .s tag, .s op, .s dp] ++ ks.map RVal.s) := by
+  simp only [currentdateTuple, arg, Readback.extra, Node.args, Node.extra, e1, e2, a2, a3, a4, pvOf, bind, Except.bind, flat, asStr, pure,
+    Except.pure, hrel, if_true, quote_plain zone hz, quote_plain dp hd, quote_plain op ho, strip_quote_plain zone hz,
+    strip_quote_plain dp hd, strip_quote_plain op ho, listOrOne_quoteList ks hne hp, List.append_nil, List.cons_append,
+    List.nil_append]
 
 end Readback
